@@ -29,7 +29,7 @@ T = {
  "C08b": ("C08", "polygon set where an earlier element has vertical limits and a later one has them undefined", "C08 quick", "roundtrip:Polygons:rewrite-differs"),
  "C11a": ("C11", "sparse x sparse product with both transposition flags and two different non-commuting operands", "C11 quick", "prodMatMat:sparse-kernel:sparse-eigen:TT:nonsquare"),
  "C11b": ("C11", "inverse of the dense Cholesky factor for order >= 3", "C11 quick", "chol-dense:triangles"),
- "C13a": ("C13", "turning bands of a POWER model after an earlier POWER simulation with the same exponent and another scale (stale function-static constants)", "MISSED by C13 quick at the time of seeding (no other simulation between the two runs); harness extension requested", ""),
+ "C13a": ("C13", "turning bands of a POWER model after an earlier POWER simulation with the same exponent and another scale (stale function-static constants)", "C13 quick (after adding part history with a pristine fork+exec reference; missed before)", "history:simtub:POWER"),
  "C13b": ("C13", "conditional plurigaussian with a rule using the second GRF and data exactly on target nodes", "C13 quick", "pgs:facies-at-data"),
  "C15a": ("C15", "matrix-free operator with an even number of Markov coefficients (param + ndim/2 odd)", "C15 quick", "opq:matrixfree-vs-assembled:turbo1d:matern"),
  "C15b": ("C15", "turbo mesh both rotated and with unequal cell sizes", "C15 quick", "proj:affine-not-reproduced:turbo3d"),
@@ -42,21 +42,27 @@ T = {
  "C17a": ("C17", ">= 2 variables, constant-total-sill constraint, unconstrained sill matrix not positive definite, larger rescale factor second", "C17 quick", "sill:not-psd:NUGGET:nvar=2"),
  "C17b": ("C17", "item constraint on a structure that is not the first, an earlier structure pruned, pass not converged within maxiter", "C17 quick", "constraint:violated-after-structure-reduction:sill"),
  "C14a": ("C14", "law_binomial in the BTPE branch with n*p*q > 42", "C14 quick", "moments:binomial:BTPE"),
- "C14b": ("C14", "turning bands on a grid support with a Matern structure of parameter < 0.5", "MISSED by C14 quick at the time of seeding (microsim menus: spherical/exponential/gaussian only); harness extension requested", ""),
+ "C14b": ("C14", "turning bands on a grid support with a Matern structure of parameter < 0.5", "C14 quick (after adding part tb_grid_vs_points; missed before)", "tb:grid-vs-points:MATERN(0.3)"),
  "C01c": ("C01", "heterotopic multivariate data + moving neighbourhood: a heterotopic neighbourhood followed by an isotopic one of the same size in one kriging() call", "C01 quick", "estim:drift:multivar:block:isotopic"),
  "C02c": ("C02", "cokriging with >= 2 variables and >= 2 drift functions per variable (drift equations permuted in the LHS)", "C02 quick", "unbiased:monomial:drift:multivar:moving"),
  "C03c": ("C03", "rotated structure whose radius is changed through setRange(idim)/setScale(idim) after the rotation was set", "C03 quick (after adding the construction-route and setter-sequence parts; missed before)", "setters:eval:after=setRange(0,.)"),
  "C04c": ("C04", "migrate with flag_ball and dist_type=2 (tree built with the Manhattan metric)", "C04 quick", "migrate-ball:point-to-point:differs"),
  "C05c": ("C05", "covariance/drift matrix requested for ONE variable of rank >= 1 on heterotopic multivariate data", "C05 quick (after adding part one_variable_requests_on_heterotopic_data; missed before)", "evalCovMatrix:variable-restricted-request:rank>=1"),
- "C06c": ("C06", "sectors + a candidate with exactly the same first coordinate as the target on the dy<0 side", "MISSED by C06 quick at the time of seeding (jittered menus never produce dx == 0); harness extension requested", ""),
+ "C06c": ("C06", "sectors + a candidate with exactly the same first coordinate as the target on the dy<0 side", "C06 quick (after adding part aligned with exact boundary classification; missed before)", "select:size:sectors"),
  "C07c": ("C07", "selection defined, active status queried once, then a role-less column stored before the selection column deleted (stale cached column index)", "C07 quick (after adding the observeAll step and the 'observed since last mutation' state bit; missed before)", "deleteColumnByColIdx:active-isActive"),
- "C08c": ("C08", "Model with a mixed drift monomial of degree >= 3 (exponent > 1 followed by a factor without exponent)", "MISSED by C08 quick at the time of seeding (builder menu: IRF orders 0-2 only); harness extension requested", ""),
- "C10c": ("C10", "isotropic structure then setRange(0,r)/setScale(0,s) only: stale isotropy flag (incremental update differs from fresh build)", "MISSED by C10 and C03 quick at the time of seeding; harness extension requested", ""),
- "C11c": ("C11", "eigen-decomposition cached on one matrix object and not invalidated by addScalar/addScalarDiag/prodScalar/addMatInPlace", "MISSED by C11 quick at the time of seeding (every operation applied to a fresh object); harness extension requested", ""),
- "C12c": ("C12", "asymmetric estimator cross term with tolang >= 90 and codir not +x (pair orientation by sample order)", "MISSED by C12 quick at the time of seeding (per-direction orientation reversal accepted); oracle tightening requested", ""),
+ "C08c": ("C08", "Model with a mixed drift monomial of degree >= 3 (exponent > 1 followed by a factor without exponent)", "C08 quick (after adding part rt_ModelDrift with all monomials of degree <= 3; missed before)", "roundtrip:Model:drift"),
+ "C10c": ("C10", "isotropic structure then setRange(0,r)/setScale(0,s) only: stale isotropy flag (incremental update differs from fresh build)", "C10 quick (after adding the incr_* parts: incrementally updated objects vs fresh ones; missed before)", "incr:CovAniso(spherical):isIsotropic"),
+ "C11c": ("C11", "eigen-decomposition cached on one matrix object and not invalidated by addScalar/addScalarDiag/prodScalar/addMatInPlace", "C11 quick (after adding part history_matrix on one live object; missed before)", "history:dense:computeEigen:after:addScalar"),
+ "C12c": ("C12", "asymmetric estimator cross term with tolang >= 90 and codir not +x (pair orientation by sample order)", "C12 quick (after fixing one orientation convention per run + mirror-direction relation; missed before)", "vario:gg:covariance:regular:cross"),
  "C15c": ("C15", "SPDE kriging with a V column, a selection masking a non-trailing sample and non-constant V", "MISSED by C15 quick at the time of seeding (layout axes not crossed); harness extension requested", ""),
- "C16c": ("C16", "getCoordinate of a node, in-place geometry setter, getCoordinate of the same node (stale memo)", "MISSED by C16 quick at the time of seeding (grids built fresh, nodes queried in order); harness extension requested", ""),
+ "C16c": ("C16", "getCoordinate of a node, in-place geometry setter, getCoordinate of the same node (stale memo)", "C16 quick (after adding the history_grid/dbgrid parts; missed before)", "history:getCoordinate:after-in-place-edit"),
  "C17c": ("C17", "constraint declared through addItemFromParamId with iv1 >= 1 (Range V/W, 2nd/3rd angle) on an anisotropic fit", "MISSED by C17 quick at the time of seeding (one declaration route, component 0); harness extension requested", ""),
+ "C09c": ("C09", "CSV file of 0, 1 or 2 bytes (loader never returns)", "C09 quick", "PolygonsCSV:truncated:exception-or-exhaustion"),
+ "C13c": ("C13", "conditional multivariate simtub, heterotopic datum (earlier variable undefined) on a target, model with nugget", "C13 quick (after adding part simtub_hetero; missed before)", "simtub:hetero:grid-target"),
+ "C14c": ("C14", "turning bands (spectral method structures) on a grid whose selection masks a node followed by an active node in the same row", "MISSED by C14 quick at the time of seeding; harness extension requested", ""),
+ "C18c": ("C18", "the same PCA object computed twice (stale accumulators)", "MISSED by C18 quick at the time of seeding (fresh object per case); harness extension requested", ""),
+ "C19c": ("C19", "xvalid with flag_est=0, flag_std!=0 on multivariate data (pre-existing columns overwritten)", "C19 quick (after adding part flags: all output-flag combinations x nvar; missed before)", "success-changes-old-values:xvalid"),
+ "C20c": ("C20", "vertices replaced through setX/setY on an existing PolyElem/Polygons (stale cached bounding box)", "C20 quick (after adding the history_polyelem/history_polygons parts; missed before)", "history:PolyElem:inside-after:setX+setY"),
  "C09b": ("C09", "24/32-bit BMP whose colour-count header field exceeds 256", "C09 quick (after adding the binary grid readers with header-field faults; missed before)", "GridBmp:header-field:biClrUsed=small:memory-error"),
 }
 for seed, (prop, needs, caught, key) in T.items():
